@@ -287,7 +287,9 @@ fn check_angle_impl(deg: f64, r: &mut Report) {
         let m = a.to_rads();
         let ok = (a + b).to_rads() == m + b.to_rads() && (a - b).to_rads() == m - b.to_rads() && (-a).to_rads() == -m && (a * 2.5).to_rads() == m * 2.5 && (a / 4.0).to_rads() == m / 4.0
             && a.min(b).to_rads() == m.min(b.to_rads()) && a.max(b).to_rads() == m.max(b.to_rads()) && a.clamp(degs(-45.0), degs(60.0)).to_rads() == m.clamp(degs(-45.0).to_rads(), degs(60.0).to_rads())
-            && (a % b).to_rads() == m % b.to_rads();
+            && (a % b).to_rads() == m % b.to_rads()
+            // scalar factors and divisors of every magnitude: the operator is the magnitude's own operator, whatever the operand
+            && [1e-8f32, -3e-7, 1e-39, 1e30, -0.5].iter().all(|&k| { let (q, p) = (caught(|| (a / k).to_rads()), caught(|| (a * k).to_rads())); q.map_or(false, |q| q.to_bits() == (m / k).to_bits() || (q.is_nan() && (m / k).is_nan())) && p.map_or(false, |p| p.to_bits() == (m * k).to_bits() || (p.is_nan() && (m * k).is_nan())) });
         if !ok { r.violation(key("arith"), format!("operators/clamp/min/max on degs({d}) do not act on the magnitude"), case()); }
         // the same arithmetic through the Affine / Linear / Lerp trait entry points
         {
@@ -310,7 +312,10 @@ fn check_angle_impl(deg: f64, r: &mut Report) {
                 let span = h - l;
                 let q = (x - wl) / span;
                 // inside the interval: closed at the lower end, at the upper end only by rounding - no slack either way
-                let in_rng = wl >= l && wl <= h;
+                // (a result bit-equal to max is only legitimate when the exact wrapped value lies within rounding below max)
+                let exact = l + (x - l).rem_euclid(span);
+                let at_max_wrongly = wl == h && (h - exact) > 1e-6 * h.abs().max(span).max(x.abs() * 1e-1);
+                let in_rng = wl >= l && wl <= h && !at_max_wrongly;
                 let cong = (q - q.round()).abs() <= 1e-4 + 4.0 * (x.abs() * 6e-8) / span;
                 if !in_rng || !cong {
                     let side = if x < l { "below-min" } else if x > h { "above-max" } else { "inside" };
